@@ -421,8 +421,29 @@ func runC06(line string, kind, target string, msize uint32, dotu bool, seed int6
 	var stream []byte
 	switch kind {
 	case "structured":
-		// usually a proper start, then 5..40 hostile requests
-		if r.Intn(5) > 0 {
+		// sometimes: a session that negotiates a tiny msize, works a little, negotiates again with a
+		// large one and then asks for more than the tiny one could carry
+		if r.Intn(6) == 0 {
+			small := []uint32{64, 128, 256}[r.Intn(3)]
+			ver := "9P2000"
+			if dotu {
+				ver = "9P2000.u"
+			}
+			vs := h.validSession()
+			stream = append(stream, rawFrame(g.Tversion, g.NOTAG, cat(le32(small), lstr(ver)))...)
+			for _, f := range vs[1:4] { // attach, walk to the directory, open it
+				stream = append(stream, f...)
+			}
+			for k := 0; k < 2+r.Intn(4); k++ {
+				stream = append(stream, rawFrame(g.Tread, uint16(20+k), cat(le32(1), le64(0), le32(small-24)))...)
+				stream = append(stream, rawFrame(g.Tstat, uint16(30+k), le32(0))...)
+			}
+			stream = append(stream, rawFrame(g.Tversion, g.NOTAG, cat(le32([]uint32{8192, msize, 65536}[r.Intn(3)]), lstr(ver)))...)
+			for k := 0; k < 3+r.Intn(5); k++ {
+				cnt := []uint32{small - 23, small, 300, 1000, 4096, msize - 24}[r.Intn(6)]
+				stream = append(stream, rawFrame(g.Tread, uint16(40+k), cat(le32(uint32(r.Intn(2))), le64(0), le32(cnt)))...)
+			}
+		} else if r.Intn(5) > 0 {
 			vs := h.validSession()
 			stream = append(stream, vs[0]...)
 			if r.Intn(4) > 0 {
